@@ -2,6 +2,7 @@
 From Coq Require Import ZArith List Bool.
 From BV Require Import Lib.Cases Model.LaxSem Model.Restart Model.Pool
      Proofs.PoolJobs Proofs.PoolInv Proofs.PoolTick Proofs.PoolSup Proofs.PoolIdx.
+From BV Require Import Proofs.PoolTick Proofs.PoolSem Proofs.PoolSize.
 From BV Require Import Proofs.PoolRefuted.
 From BV Require Gen.G_pool_shape.
 From BV Require Lib.PyVal Gen.K_worker Model.Worker Proofs.WorkerProofs.
@@ -81,6 +82,39 @@ Theorem C09_back_to_size_refuted :
     /\ pstate (run c tr) = 1.
 Proof. exact no_replacement_after_close. Qed.
 Print Assumptions C09_back_to_size_refuted.
+
+(* ---- history level (Proofs/PoolSize.v) ----
+   "never above it": in EVERY reachable state the workers of the pool that are not being stopped
+   (shrink, terminate_job) number at most the configured size *)
+Theorem C09_never_above_size : forall c tr,
+    0 <= c_n c -> grows_nonneg tr ->
+    let s := run c tr in
+    Z.of_nat (length (filter (fun p => negb (ctl s p)) (wlist s))) <= nprocs s.
+Proof. exact never_above_size. Qed.
+Print Assumptions C09_never_above_size.
+
+(* "brought back to the configured size" and "no job ... failed or held up because of recycling":
+   a pass over a running pool whose reaped workers all left with the clean or recycle status (and
+   which has no more workers missing than it reaped) never fails, leaves exactly max(size, kept)
+   workers, does not touch the restart limiter, and changes no resolved job of any kind *)
+Theorem C09_clean_pass : forall s,
+    pstate s = 0 ->
+    Forall (fun c => clean_code c = true) (pass_codes s) ->
+    (reaped s = [] \/ nprocs s - Z.of_nat (length (kept s)) <= Z.of_nat (length (reaped s))) ->
+    exists s', do_tick s = (s', RNone)
+      /\ Z.of_nat (length (wlist s')) = Z.max (nprocs s) (Z.of_nat (length (kept s)))
+      /\ wlist s' = kept s ++ map Z.of_nat (seq (length (procs s)) (missing s))
+      /\ nprocs s' = nprocs s
+      /\ rst s' = rst s
+      /\ (forall j x, get_job s j = Some x -> ready x = true -> get_job s' j = Some x).
+Proof. exact clean_pass. Qed.
+Print Assumptions C09_clean_pass.
+
+(* after ANY pass no worker that has exited is left in the pool list *)
+Theorem C09_pass_leaves_no_exited_worker : forall s p q,
+    In p (wlist (fst (do_tick s))) -> get_proc (fst (do_tick s)) p = Some q -> pexit q = None.
+Proof. exact tick_no_exited_left. Qed.
+Print Assumptions C09_pass_leaves_no_exited_worker.
 
 Example C09_witness :
   let s := run c09_cfg c09_tr in
